@@ -1,8 +1,12 @@
 package checks
 
 import (
+	"fmt"
+	"go/types"
+
 	vexec "vp/exec"
 	"vp/run"
+	"vp/sym"
 )
 
 func init() {
@@ -29,6 +33,96 @@ func init() {
 			run.Instance{Pkg: "heur", Func: "VpH_C16_quietband", Params: map[string]int64{"stm": 0}},
 			run.Instance{Pkg: "heur", Func: "VpH_C16_quietband", Params: map[string]int64{"stm": 1}},
 			run.Instance{Pkg: "heur", Func: "VpH_C16_noisyband", Opt: run.Options{Setup: seeStub}})
+		for n := int64(1); n <= 6; n++ {
+			s.Instances = append(s.Instances, run.Instance{Pkg: "picker", Func: "VpH_C16_select", Params: map[string]int64{"n": n}, Opt: run.Options{LoopBound: 10}})
+		}
+		maxg := int64(2)
+		if tier == "thorough" {
+			maxg = 3
+		}
+		if tier != "diagnostic" {
+			maxg = -1 // the whole-run harness against generator contracts is kept for further work only: on the unchanged
+			// tree it has counterexamples against the contracts that do not replay (contract or harness still wrong)
+		}
+		for nn := int64(0); nn <= maxg; nn++ {
+			for nq := int64(0); nq <= maxg; nq++ {
+				nn, nq := nn, nq
+				s.Instances = append(s.Instances, run.Instance{Pkg: "picker", Func: "VpH_C16_run", Params: map[string]int64{"nn": nn, "nq": nq},
+					Opt: run.Options{LoopBound: 12, TimeoutMs: 300000, Setup: func(x *vexec.Exec, w *run.World) { pickerContracts(x, w, int(nn), int(nq)) }}})
+			}
+		}
+		s.Bounds = append(s.Bounds,
+			"selection step: frames of 1..6 entries with arbitrary moves, weights and yielded prefix",
+		)
+		s.Outside = append(s.Outside, "the staged run of the picker as a whole (hash move first, every generated move exactly once): a harness against generator contracts exists (tier diagnostic) but does not close; only the selection step and the weight bands are claimed")
 		return s
 	}
+}
+
+// pickerContracts installs the generator / pseudo-legality / ranker contracts for the whole-run picker harness.
+func pickerContracts(x *vexec.Exec, w *run.World, nn, nq int) {
+	c := x.C
+	mpkg := w.Pkgs[run.ModPath+"/move"]
+	allocSel := w.Prog.MethodSets.MethodSet(types.NewPointer(mpkg.Type("Store").Type())).Lookup(mpkg.Pkg, "Alloc")
+	allocFn := w.Prog.MethodValue(allocSel)
+	var gen []*sym.Term
+	seen := map[string]bool{}
+	mk := func(kind string, n int) func(x *vexec.Exec, a []vexec.Val, g *sym.Term) vexec.Val {
+		return func(x *vexec.Exec, a []vexec.Val, g *sym.Term) vexec.Val {
+			// the executor may reach a generation stage again on a merged (infeasible) path: the list is the same one
+			first := !seen[kind]
+			seen[kind] = true
+			for i := 0; i < n; i++ {
+				m := c.ZExt(c.Var(15, fmt.Sprintf("%s_move[%d]", kind, i)), 16)
+				if first {
+					for _, o := range gen {
+						x.Assume(c.Not(c.Eq(m, o))) // duplicate-free, lists disjoint
+					}
+					x.Assume(c.Not(c.Eq(m, c.Const(16, 0))))
+					gen = append(gen, m)
+				}
+				x.Call(allocFn, []vexec.Val{a[0], m}, nil, g)
+			}
+			return nil
+		}
+	}
+	x.Stub(run.ModPath+"/movegen.GenNoisy", mk("noisy", nn))
+	x.Stub(run.ModPath+"/movegen.GenNotNoisy", mk("quiet", nq))
+	x.Stub("(*"+run.ModPath+"/board.Board).IsPseudoLegal", func(x *vexec.Exec, a []vexec.Val, g *sym.Term) vexec.Val {
+		// C05: accepted iff generated. The lists are fixed by name, so the answer can be given before generation.
+		m := a[1].(*sym.Term)
+		r := c.False
+		for i := 0; i < nn; i++ {
+			r = c.Or(r, c.Eq(m, c.ZExt(c.Var(15, fmt.Sprintf("noisy_move[%d]", i)), 16)))
+		}
+		for i := 0; i < nq; i++ {
+			r = c.Or(r, c.Eq(m, c.ZExt(c.Var(15, fmt.Sprintf("quiet_move[%d]", i)), 16)))
+		}
+		return r
+	})
+	k := 0
+	x.Stub("(*"+run.ModPath+"/heur.MoveRanker).RankNoisy", func(x *vexec.Exec, a []vexec.Val, g *sym.Term) vexec.Val {
+		k++
+		r := c.Var(16, fmt.Sprintf("noisy_rank#%d", k))
+		good := c.And(c.Sle(c.Const(16, 7168), r), c.Slt(r, c.Const(16, 16384)))
+		bad := c.And(c.Sle(r, c.Const(16, uint64(0x10000-7168))), c.Slt(c.Const(16, uint64(0x10000-16384)), r))
+		x.Assume(c.Or(good, bad))
+		return r
+	})
+	x.Stub("(*"+run.ModPath+"/heur.MoveRanker).RankQuiet", func(x *vexec.Exec, a []vexec.Val, g *sym.Term) vexec.Val {
+		k++
+		r := c.Var(16, fmt.Sprintf("quiet_rank#%d", k))
+		x.Assume(c.And(c.Sle(c.Const(16, uint64(0x10000-3072)), r), c.Sle(r, c.Const(16, 3072))))
+		return r
+	})
+	x.Stub(run.ModPath+"/picker.vpGenCount", func(x *vexec.Exec, a []vexec.Val, g *sym.Term) vexec.Val {
+		return c.Const(64, uint64(len(gen)))
+	})
+	x.Stub(run.ModPath+"/picker.vpGenMove", func(x *vexec.Exec, a []vexec.Val, g *sym.Term) vexec.Val {
+		i := a[0].(*sym.Term)
+		if !i.IsConst() || int(i.C) >= len(gen) {
+			return c.Const(16, 0)
+		}
+		return gen[i.C]
+	})
 }
